@@ -106,6 +106,28 @@ CLAIMS = {
   "technique": "static analysis: bit-level symbolic evaluation (normal forms), constant tables vs. standards, sibling agreement",
   "design_ref": "DESIGN.md section 4, C17",
  },
+ "C04": {
+  "text": "Ownership/typestate clauses decided on every path: each getter clears the slot or unlinks-and-releases the holder of the "
+          "record it hands out; cancel never leaves a slot pointing at a released record; one invoker calls once and releases; "
+          "register/cancel/get agree on the (operation, slot, poll bit) triples; registration bits and readiness bits are cleared "
+          "together and the error widening adds only registered bits; timer deadlines are monotonic-clock + stored delta from success "
+          "edges and are released only on the not-later edge of comparators evaluated on all nine orderings.",
+  "note": "Trusted: poll(2), monoclock_get, TAILQ macros, heap order (C13). Not decided: the pollfd/socket-list compaction "
+          "invariants and the scan cursor under compaction (need an inductive relational array invariant no installed tool carries).",
+  "technique": "static analysis: take-and-clear/ownership rules, sibling mapping agreement, abstract evaluation of comparators",
+  "design_ref": "DESIGN.md section 4, C04",
+ },
+ "C05": {
+  "text": "Order and propagation clauses decided on every path of the dispatch loop: a must-analysis of 'queues observed empty since "
+          "the last dispatch/poll' proves priority by construction at every fetch and at the blocking poll; status is stored, tested, "
+          "returned unchanged and stops dispatch; an interrupt test sits between any two dispatches; a fetched event is always "
+          "dispatched; the loop never blocks after a dispatch; immediate queues insert at the tail, remove at the head, and minq moves "
+          "only past queues tested empty.",
+  "note": "Trusted: TAILQ macros, poll(2). Not decided: poll timeout arithmetic (millisecond round-up), deadline order of timers "
+          "(C13/C04), wall-clock waiting.",
+  "technique": "static analysis: must-dataflow over the dispatch loop's CFG, status/interrupt typestate, queue-discipline rules",
+  "design_ref": "DESIGN.md section 4, C05",
+ },
 }
 
 NOT_APPLICABLE = {
